@@ -86,20 +86,21 @@ func (t escapeMapping) Transform(dst, src []byte, atEOF bool) (nDst, nSrc int, e
 			n := copy(dst[nDst:], src[nSrc:nSrc+idx])
 			nDst += n
 			nSrc += n
-			if n != idx-nSrc {
+			if n != idx {
+				return nDst, nSrc, transform.ErrShortDst
+			}
+			// Never write part of an escape sequence: the caller resumes with the
+			// unconsumed source and would lose the rest of it.
+			if len(dst)-nDst < 3 {
 				return nDst, nSrc, transform.ErrShortDst
 			}
 			c := src[nSrc]
-			n = copy(dst[nDst:], []byte{
+			nDst += copy(dst[nDst:], []byte{
 				'\\',
 				"0123456789abcdef"[c>>4],
 				"0123456789abcdef"[c&15],
 			})
-			nDst += n
 			nSrc++
-			if n != 3 {
-				return nDst, nSrc, transform.ErrShortDst
-			}
 		}
 	}
 	return
@@ -198,7 +199,7 @@ func (t unescapeMapping) Transform(dst, src []byte, atEOF bool) (nDst, nSrc int,
 			}
 			return nDst, nSrc, transform.ErrShortSrc
 		case idx == len(src[nSrc:])-2:
-			if atEOF || !ishex(src[nSrc+idx+1]) {
+			if atEOF {
 				n := copy(dst[nDst:], src[nSrc:])
 				nDst += n
 				nSrc += n
@@ -206,6 +207,18 @@ func (t unescapeMapping) Transform(dst, src []byte, atEOF bool) (nDst, nSrc int,
 					return nDst, nSrc, transform.ErrShortDst
 				}
 				return
+			}
+			if !ishex(src[nSrc+idx+1]) {
+				// This escape character cannot start a sequence, but the byte after
+				// it may be an escape character that does once more source arrives,
+				// so only copy through the first one.
+				n := copy(dst[nDst:], src[nSrc:nSrc+idx+1])
+				nDst += n
+				nSrc += n
+				if n != idx+1 {
+					return nDst, nSrc, transform.ErrShortDst
+				}
+				continue
 			}
 			n := copy(dst[nDst:], src[nSrc:nSrc+idx])
 			nDst += n
@@ -223,17 +236,14 @@ func (t unescapeMapping) Transform(dst, src []byte, atEOF bool) (nDst, nSrc int,
 			if n != idx {
 				return nDst, nSrc, transform.ErrShortDst
 			}
-			if n == 0 {
-				n++
-			}
-			n = copy(dst[nDst:], []byte{
-				unhex(src[nSrc+n])<<4 | unhex(src[nSrc+n+1]),
-			})
-			nDst += n
-			nSrc += 3
-			if n != 1 {
+			// nSrc now points at the escape character; do not consume the
+			// sequence unless its replacement fits.
+			if nDst == len(dst) {
 				return nDst, nSrc, transform.ErrShortDst
 			}
+			dst[nDst] = unhex(src[nSrc+1])<<4 | unhex(src[nSrc+2])
+			nDst++
+			nSrc += 3
 			continue
 		}
 		n := copy(dst[nDst:], src[nSrc:nSrc+idx+1])
